@@ -14,7 +14,7 @@ TECHNIQUE = ("property-based differential testing (Hypothesis) of evaluate_cfi_d
 RULE = ("a case is a sequence of CFI directives over the evaluator's supported set (startproc, endproc, personality, "
         "lsda, return_column, def_cfa*, adjust_cfa_offset, undefined, same_value, register, restore, val_offset, offset, "
         "rel_offset, remember/restore_state, escape with def_cfa_expression / expression / val_expression / nop) "
-        "distributed over 1-5 code blocks and several offsets per block, blocks passed in shuffled order, for the ABIs "
+        "with register columns 0-20 and a few beyond 63 / 127, distributed over 1-5 code blocks and several offsets per block, blocks passed in shuffled order, for the ABIs "
         "with a DWARF return column (x86-64 ELF, ARM64, MIPS32). 'Repaired' sequences are well-formed by construction, "
         "'raw' ones are arbitrary. The yielded (block, offset, state) triples must equal the reference's; ill-formed "
         "input must raise CFIStateError/ValueError at the same group the reference rejects; copies taken at yield time "
